@@ -56,6 +56,8 @@ fn time_sum_overflows(issued_ns: u128, lifetime_ns: u128) -> bool {
 struct Token {
     /// `cfg n ..`: the server key is the executor's NULL AEAD (tag = 16 zero bytes)
     null_server_key: bool,
+    /// `cfg .. <retry lifetime ns> <validation lifetime ns> ..` in force (0 before the first `cfg`)
+    lifetimes_ns: [u128; 2],
 }
 
 /// Exactly the plaintexts `Token::encode` (token.rs:216) can seal: type 0 = ip, port, CID (<= 20 bytes), seconds;
@@ -132,6 +134,7 @@ impl Tracker for Token {
                     && matches!(w[5], "all" | "none" | "bloom");
                 if ok {
                     self.null_server_key = w[2] == "n";
+                    self.lifetimes_ns = [dec128(w, 3).unwrap_or(0), dec128(w, 4).unwrap_or(0)];
                 }
                 when(ok, Local)
             }
@@ -167,6 +170,14 @@ impl Tracker for Token {
             }
             _ => Contract,
         }
+    }
+
+    /// The recorded finding `C03-panic-on-peer-input.token.present@std.time:overflow-when-adding-duration-to-instant`
+    /// exists only with a configured token lifetime of about 2^63 s ("never expires"): the class is part of the key,
+    /// so the same overflow under an ordinary lifetime (a real defect of another kind) is not taken for it.
+    fn config_class(&self, _w: &[&str]) -> Option<String> {
+        let huge = self.lifetimes_ns.iter().any(|l| l / NS >= 1u128 << 62);
+        huge.then(|| "lifetime-ge-2^62s".to_string())
     }
 }
 
